@@ -396,6 +396,38 @@ func generate(rng *vh.Rng, hostile bool) Case {
 		m.Fix()
 		return m
 	}
+	// a request with an explicit range, clipped to the configured capacity
+	direct := func(kind string, addr, n uint64, masked bool, src uint64) *vh.Msg {
+		capa := c.Cfg.Capacity
+		if addr >= capa {
+			addr = capa - 1
+		}
+		if n == 0 {
+			n = 1
+		}
+		if addr+n > capa {
+			n = capa - addr
+		}
+		m := &vh.Msg{ID: next, Src: src, Dst: pTop, Addr: addr, Kind: kind}
+		next++
+		if kind == "KRead" {
+			m.Size = n
+		} else {
+			m.Data = make([]byte, n)
+			for j := range m.Data {
+				m.Data[j] = byte(rng.U64()) | 1
+			}
+			if masked {
+				m.Mask = make([]bool, n)
+				for j := range m.Mask {
+					m.Mask[j] = rng.Intn(3) > 0
+				}
+				m.Mask[n-1] = true // the far end of a straddling write is enabled
+			}
+		}
+		m.Fix()
+		return m
+	}
 	// a second request to the same bank but another row: the two row misses
 	// expire together (or the second expires while the first occupies stage 0)
 	rowPartner := func(m *vh.Msg) *vh.Msg {
@@ -449,7 +481,86 @@ func generate(rng *vh.Rng, hostile bool) Case {
 			step(Event{E: "d", Msg: mkReq()})
 			continue
 		}
-		switch rng.Pick(wD, wT, wR, 2, 3, 2, 4) {
+		switch rng.Pick(wD, wT, wR, 2, 3, 2, 4, 4, 3) {
+		case 7:
+			// same-cycle burst on a hot block: ranges that overlap partially from
+			// either side, the same range read again around writes, several sources
+			if !hostile && c.Cfg.BConv == nil {
+				if rng.Bool() {
+					step(Event{E: "tick"}) // empty the port first so that the burst arrives in one cycle
+				}
+				base := pool[rng.Intn(len(pool))]
+				if base < 16 {
+					base = 16
+				}
+				lo := base + uint64(rng.Intn(12))
+				n := uint64(pickI(rng, 4, 8, 8, 16, 1+rng.Intn(24)))
+				src := uint64(10 + rng.Intn(3))
+				pickSrc := func() uint64 {
+					if rng.Intn(3) == 0 {
+						return uint64(10 + rng.Intn(3))
+					}
+					return src
+				}
+				if !crashed {
+					step(Event{E: "d", Msg: direct("KRead", lo, n, false, pickSrc())})
+				}
+				for k := 1 + rng.Intn(4); k > 0 && !crashed; k-- {
+					switch rng.Intn(7) {
+					case 0, 1: // write starting below the range and reaching into it
+						d := uint64(1 + rng.Intn(12))
+						step(Event{E: "d", Msg: direct("KWrite", lo-d, d+1+uint64(rng.Intn(int(n))), rng.Intn(4) == 0, pickSrc())})
+					case 2: // write starting inside, ending inside or beyond
+						o := uint64(rng.Intn(int(n)))
+						step(Event{E: "d", Msg: direct("KWrite", lo+o, 1+uint64(rng.Intn(int(n)+8)), rng.Intn(4) == 0, pickSrc())})
+					case 3: // write covering the range on both sides
+						d := uint64(rng.Intn(8))
+						step(Event{E: "d", Msg: direct("KWrite", lo-d, d+n+uint64(rng.Intn(8)), rng.Intn(4) == 0, pickSrc())})
+					case 4: // write just above / just below (no overlap)
+						if rng.Bool() {
+							step(Event{E: "d", Msg: direct("KWrite", lo+n, 1+uint64(rng.Intn(8)), false, pickSrc())})
+						} else {
+							step(Event{E: "d", Msg: direct("KWrite", lo-8, uint64(1+rng.Intn(8)), false, pickSrc())})
+						}
+					case 5: // the same range again
+						step(Event{E: "d", Msg: direct("KRead", lo, n, false, pickSrc())})
+					default: // an overlapping but different range
+						step(Event{E: "d", Msg: direct("KRead", lo-uint64(rng.Intn(6)), n+uint64(rng.Intn(6)), false, pickSrc())})
+					}
+				}
+				if !crashed {
+					step(Event{E: "d", Msg: direct("KRead", lo, n, false, pickSrc())})
+				}
+			}
+		case 8:
+			// an access straddling a 4 KiB storage-unit boundary, then reads wholly
+			// below, wholly above and across it
+			if !hostile && c.Cfg.BConv == nil && c.Cfg.Capacity >= 1<<16 {
+				bd := uint64(4096 * (1 + rng.Intn(15)))
+				below := uint64(1 + rng.Intn(63))
+				above := uint64(1 + rng.Intn(64-int(below)+1))
+				step(Event{E: "d", Msg: direct("KWrite", bd-below, below+above, rng.Intn(2) == 0, uint64(10+rng.Intn(3)))})
+				for k := rng.Intn(4); k > 0 && !crashed; k-- {
+					step(Event{E: "tick"})
+				}
+				order := []int{0, 1, 2}
+				if rng.Bool() {
+					order = []int{1, 2, 0}
+				}
+				for _, w := range order {
+					if crashed {
+						break
+					}
+					switch w {
+					case 0: // wholly in the upper unit
+						step(Event{E: "d", Msg: direct("KRead", bd+uint64(rng.Intn(int(above))), uint64(1+rng.Intn(16)), false, 10)})
+					case 1: // wholly in the lower unit
+						step(Event{E: "d", Msg: direct("KRead", bd-below, below, false, 11)})
+					default: // across
+						step(Event{E: "d", Msg: direct("KRead", bd-uint64(1+rng.Intn(int(below))), below+above, false, 12)})
+					}
+				}
+			}
 		case 6:
 			// a run of ticks with nothing in between (what the engine does while the
 			// component reports progress; a quiet tick must then stay quiet)
